@@ -121,6 +121,20 @@ func gOp(mop *model.Operation) string {
 		return fmt.Sprintf("(ODel %s %s)", id, gTsList(o.GetBody().T))
 	case *operations.UpdateOperation:
 		return fmt.Sprintf("(OUpd %s %s %s)", id, gTsList(o.GetBody().T), gVals(o.GetBody().V))
+	case *operations.DocPutInObjOperation:
+		return fmt.Sprintf("(ODocPut %s %s %s %s)", id, gTs(o.GetBody().P), gStr(o.GetBody().K), gVal(o.GetBody().V))
+	case *operations.DocRemoveInObjOperation:
+		return fmt.Sprintf("(ODocRmv %s %s %s)", id, gTs(o.GetBody().P), gStr(o.GetBody().K))
+	case *operations.DocInsertToArrayOperation:
+		t := o.GetBody().T
+		if t == nil {
+			t = &model.Timestamp{}
+		}
+		return fmt.Sprintf("(ODocIns %s %s %s %s)", id, gTs(o.GetBody().P), gTs(t), gVals(o.GetBody().V))
+	case *operations.DocDeleteInArrayOperation:
+		return fmt.Sprintf("(ODocDel %s %s %s)", id, gTs(o.GetBody().P), gTsList(o.GetBody().T))
+	case *operations.DocUpdateInArrayOperation:
+		return fmt.Sprintf("(ODocUpd %s %s %s %s)", id, gTs(o.GetBody().P), gTsList(o.GetBody().T), gVals(o.GetBody().V))
 	}
 	panic(fmt.Sprintf("gOp: unsupported operation %T", op))
 }
